@@ -6,6 +6,7 @@ import (
 	"os"
 	"testing"
 
+	"verif/dial"
 	"verif/props"
 	"verif/sim"
 )
@@ -16,6 +17,7 @@ var T *testing.T
 
 func TestWorker(t *testing.T) {
 	T = t
+	dial.T = t
 	jf := os.Getenv("VERIF_JOB_FILE")
 	if jf == "" {
 		t.Skip("VERIF_JOB_FILE not set")
